@@ -12,10 +12,10 @@ CHECKS = {
    text="For every explored document every prefix is delivered (1-cut sweep) plus sampled schedules; after each write() the emitted byte count must equal that of a fresh rewriter given the same prefix in one write, must be zero-pending after complete constructs and ordinary text, and within the prefix-derived bound for the no-handler configuration / the unfinished token for observer configurations.",
    ref="DESIGN.md section 5 C09"),
  "C10": dict(level="fault_enumeration", tech="deterministic simulation with fault injection: memory budget derived from the usage trace so that every limiter charge fails once; determinism and monotonicity oracles",
-   text="For each explored (buffer-growing document, observer configuration, preallocation, delivery schedule) the unlimited pre-run yields the accounted usage after every limiter charge (read-only hook); the limit is then set so that each individual charge fails once, plus a hook-independent sweep of small limits. Oracles: Err not panic, accounted usage <= M and retained input <= M (and <= accounted) after every successful write, identical output under larger limits, same failing call on repetition.",
+   text="For each explored (buffer-growing document, observer configuration, preallocation, delivery schedule) the unlimited pre-run yields the accounted usage after every limiter charge (read-only hook); the limit is then set so that each individual charge fails once, plus a hook-independent sweep of small limits. Oracles: Err not panic, accounted usage <= M and retained input <= M (and <= accounted) after every successful write, identical output under larger limits, same failing call on repetition; additionally (counting allocator, not the limiter) the live heap stays flat over long streams of closed constructs, the accounted peak of nesting plus retained input is the sum of the parts, and through grow-shrink-grow nesting waves the growth of the real heap never exceeds the growth of the accounted usage by more than a constant.",
    ref="DESIGN.md section 5 C10"),
  "C11": dict(level="fault_enumeration", tech="deterministic simulation with fault injection: handler error at every invocation index and memory failure at every limiter charge; conservation oracle over the sink log vs the fault-free run",
-   text="For each explored scenario a fault-free pre-run discovers every handler invocation and every limiter charge; a failure is injected at each of them (up to a stated cap) under the four graceful-flag combinations; at the error return the sink must equal prefix-of-normal-output ++ bail-out appends (registration order, once each) ++ raw remainder of the received input, exact for observer-only runs and token-exact for handler faults.",
+   text="For each explored scenario a fault-free pre-run discovers every handler invocation and every limiter charge; a failure is injected at each of them (up to a stated cap) under the four graceful-flag combinations; at the error return the sink must equal prefix-of-normal-output ++ bail-out appends (registration order, once each) ++ raw remainder of the received input, exact for observer-only runs and token-exact for handler faults; the returned error must be of the kind of the fault that was injected (a memory limit never surfaces as a content-handler error), and each flag recovers its own kind only.",
    ref="DESIGN.md section 5 C11"),
  "C12": dict(level="fault_enumeration", tech="deterministic simulation with fault injection: history checking of the ordered sink/API log under handler-error and memory faults at every fault point, plus misuse calls",
    text="The ordered log of set_encoding / handle_chunk calls and API results is checked (encoding first, exactly one final zero-length chunk on success and none otherwise, silence after an error, use-after-error panics without output, prefix property without graceful flags) for the fault-free run and for a failure injected at every handler invocation index and limiter charge of each explored scenario.",
